@@ -11,8 +11,10 @@ fi
 git apply "$patch" || git apply --3way "$patch"
 trap 'git -C /repo reset -q --hard HEAD; git -C /repo status --short | head -3' EXIT
 cd /verif
+# evidence and replays of runs against a seeded change go to a scratch directory
+mkdir -p /var/tmp/mverif && cp /verif/known_findings.json /var/tmp/mverif/
 for p in "$@"; do
-  out=$(VERIF_SCALE=${VERIF_SCALE:-1} ./check "$p" 2>&1); rc=$?
+  out=$(VERIF_DIR_OVERRIDE=/var/tmp/mverif VERIF_SCALE=${VERIF_SCALE:-1} ./check "$p" 2>&1); rc=$?
   echo "== $p exit=$rc"
   echo "$out" | grep -E "^(violation|VIOLATION|KNOWN|harness)" | cut -c1-300 | head -8
 done
